@@ -198,6 +198,8 @@ struct Src<'a> {
 	roots: Option<(Hash, Hash, Hash, Hash)>,
 	/// the source's unspent output leaf indices at the archive header, ascending, when known
 	unspent: Option<Vec<u64>>,
+	/// the source's output MMR peak hashes (diagnostics)
+	out_peaks: Option<Vec<Hash>>,
 }
 
 /// synthetic MMRs over `n_out` outputs (+ range proofs) and `n_ker` kernels, a leaf set, the bitmap
@@ -318,7 +320,7 @@ impl Synth {
 			let i = pmmr::n_leaves(pos0 + 1) - 1;
 			self.unspent.contains(&i) || self.unspent.contains(&(i ^ 1)) || pos0 + 1 == out_size
 		};
-		Src { fetch: Box::new(fetch), leaves: [(self.n_out + 1023) / 1024, self.n_out, self.n_out, self.n_ker], req_out: Box::new(req), roots: Some(self.roots), unspent: Some(self.unspent.iter().cloned().collect()) }
+		Src { fetch: Box::new(fetch), leaves: [(self.n_out + 1023) / 1024, self.n_out, self.n_out, self.n_ker], req_out: Box::new(req), roots: Some(self.roots), unspent: Some(self.unspent.iter().cloned().collect()), out_peaks: None }
 	}
 }
 
@@ -708,12 +710,29 @@ fn run_receiver(
 	drop(guard);
 	// --- the rebuilt MMRs are the source's
 	if let Some((o, b, r, k)) = src.roots {
-		match dest.c().txhashset().read().roots() {
+		// (the read guard must be gone before the diagnostics below take the write lock)
+		let roots_res = { dest.c().txhashset().read().roots() };
+		match roots_res {
 			Ok(rs) => {
 				if rs.output_roots.pmmr_root != o || rs.output_roots.bitmap_root != b || rs.rproof_root != r || rs.kernel_root != k {
+					let peaks_dbg = match &src.out_peaks {
+						Some(sp) => {
+							let chain = dest.c();
+							let hp = chain.header_pmmr();
+							let ts = chain.txhashset();
+							let mut header_pmmr = hp.write();
+							let mut txhashset = ts.write();
+							let rp = grin_chain::txhashset::extending_readonly(&mut header_pmmr, &mut txhashset, |ext, _b| Ok(ext.extension.output_readonly_pmmr().peaks()));
+							match rp {
+								Ok(rp) => format!(" output peaks equal: {:?} (peak positions {:?})", sp.iter().zip(rp.iter()).map(|(a, b)| a == b).collect::<Vec<_>>(), pmmr::peaks(ah.output_mmr_size)),
+								Err(_) => " (receiver peaks unreadable)".to_string(),
+							}
+						}
+						None => String::new(),
+					};
 					out.raw(&format!(
-						"#ORACLE-FAIL C16 deseg {}: complete, but the rebuilt MMR roots differ from the source's (output {} bitmap {} rangeproof {} kernel {}); deliveries=[{}]",
-						tag, rs.output_roots.pmmr_root == o, rs.output_roots.bitmap_root == b, rs.rproof_root == r, rs.kernel_root == k,
+						"#ORACLE-FAIL C16 deseg {}: complete, but the rebuilt MMR roots differ from the source's (output {} bitmap {} rangeproof {} kernel {});{} deliveries=[{}]",
+						tag, rs.output_roots.pmmr_root == o, rs.output_roots.bitmap_root == b, rs.rproof_root == r, rs.kernel_root == k, peaks_dbg,
 						&log.join(" ")[..log.join(" ").len().min(3000)]
 					));
 				} else {
@@ -1022,6 +1041,7 @@ fn chain_mode(out: &mut Out, rng: &mut Rng, thorough: bool) {
 						v.sort_unstable();
 						v
 					}),
+					out_peaks: None,
 				};
 				run_receiver(out, &mut st, rng, &tag, &dest, &ah, heights, &src, &plan, true);
 			}
@@ -1182,6 +1202,282 @@ fn probe_mode(out: &mut Out, rng: &mut Rng, _thorough: bool) {
 	st.dump(out, "deseg probe");
 }
 
+
+// ---------------------------------------------------------------------------------------------
+// pruned: a serving side that REALLY prunes.  A real on-disk TxHashSet (prunable PMMRBackend for
+// outputs and range proofs) filled through the real Extension::apply_block with synthetic blocks
+// (leaf 0 = the receiving chain's genesis output), >= 1025 outputs, one or two 1024-aligned runs of
+// outputs fully spent, then TxHashSet::compact at a horizon above the spending block, so that the
+// spent runs are COMPACTED AWAY (neither data nor leaf hashes on file); served through the real
+// Segmenter (bitmap / output / rangeproof segments; kernels from a synthetic kernel MMR) to the
+// real Desegmenter of a fresh chain; final roots and unspent set compared with the source's.
+// ---------------------------------------------------------------------------------------------
+
+struct PSrc {
+	_store: Arc<grin_chain::ChainStore>,
+	txhs: Arc<grin_util::RwLock<grin_chain::txhashset::TxHashSet>>,
+	header_pmmr: grin_chain::txhashset::PMMRHandle<BlockHeader>,
+	headers: Vec<BlockHeader>,
+	n: u64,
+	unspent: BTreeSet<u64>,
+	commits: Vec<Commitment>,
+	feats: Vec<OutputFeatures>,
+	counter: u64,
+}
+
+fn perr<T, E: std::fmt::Debug>(r: Result<T, E>, what: &str) -> T {
+	match r {
+		Ok(v) => v,
+		Err(e) => {
+			eprintln!("deseg pruned: {} failed: {:?}", what, e);
+			std::process::exit(3);
+		}
+	}
+}
+
+impl PSrc {
+	fn new(dir: &str) -> PSrc {
+		use grin_chain::txhashset::{PMMRHandle, TxHashSet};
+		use grin_chain::{ChainStore, Tip};
+		let _ = std::fs::remove_dir_all(dir);
+		perr(std::fs::create_dir_all(dir), "mkdir");
+		let store = Arc::new(perr(ChainStore::new(dir, None), "ChainStore::new"));
+		let txhs = perr(TxHashSet::open(dir.to_string(), store.clone(), None), "TxHashSet::open");
+		let header_pmmr = perr(
+			PMMRHandle::<BlockHeader>::new(std::path::Path::new(dir).join("header").join("header_head"), false, grin_core::ser::ProtocolVersion(1), None),
+			"header PMMRHandle",
+		);
+		let genesis = BlockHeader::default();
+		{
+			let mut batch = perr(store.batch(), "batch");
+			perr(batch.save_block_header(&genesis), "save genesis header");
+			perr(batch.save_block(&grin_core::core::Block::with_header(genesis.clone())), "save genesis");
+			let tip = Tip::from_header(&genesis);
+			perr(batch.save_body_head(&tip), "body head");
+			perr(batch.save_header_head(&tip), "header head");
+			perr(batch.commit(), "commit");
+		}
+		PSrc { _store: store, txhs: Arc::new(grin_util::RwLock::new(txhs)), header_pmmr, headers: vec![genesis], n: 0, unspent: BTreeSet::new(), commits: vec![], feats: vec![], counter: 0 }
+	}
+
+	/// one block through the real Extension::apply_block: `first` (the receiver's genesis output) then
+	/// k-1 / k fresh outputs, `spent` leaf indices spent
+	fn block(&mut self, first: Option<grin_core::core::Output>, k: u64, spent: &[u64]) {
+		use grin_core::core::{Block, Input, Inputs, Output, TransactionBody};
+		use grin_chain::Tip;
+		let proof = RangeProof { proof: [0; grin_util::secp::constants::MAX_PROOF_SIZE], plen: grin_util::secp::constants::MAX_PROOF_SIZE };
+		let mut outputs: Vec<Output> = vec![];
+		if let Some(o) = first {
+			outputs.push(o);
+		}
+		while (outputs.len() as u64) < k {
+			self.counter += 1;
+			let mut v = vec![0u8; 33];
+			v[0] = 0x09;
+			v[1..9].copy_from_slice(&self.counter.to_be_bytes());
+			v[32] = 1;
+			outputs.push(Output::new(OutputFeatures::Plain, Commitment::from_vec(v), proof));
+		}
+		let inputs: Vec<Input> = spent.iter().map(|i| Input::new(self.feats[*i as usize], self.commits[*i as usize])).collect();
+		let body = perr(TransactionBody::init(Inputs::from(&inputs[..]), &outputs, &[], false), "TransactionBody::init");
+		let prev = self.headers.last().unwrap().clone();
+		let mut header = BlockHeader::default();
+		header.version = grin_core::core::block::HeaderVersion(5);
+		header.height = prev.height + 1;
+		header.prev_hash = grin_core::core::hash::Hashed::hash(&prev);
+		self.counter += 1;
+		header.pow.nonce = self.counter;
+		*header.pow.proof.nonces.last_mut().unwrap() = self.counter;
+		header.output_mmr_size = pmmr::insertion_to_pmmr_index(self.n + k);
+		header.kernel_mmr_size = 0;
+		let block = Block { header, body };
+		// the MMR holds the outputs in the order the block lists them
+		for o in block.outputs() {
+			self.commits.push(o.commitment());
+			self.feats.push(o.features());
+		}
+		for i in self.n..self.n + k {
+			self.unspent.insert(i);
+		}
+		for x in spent {
+			self.unspent.remove(x);
+		}
+		self.n += k;
+		let store = self._store.clone();
+		let mut batch = perr(store.batch(), "batch");
+		perr(batch.save_block_header(&block.header), "save_block_header");
+		perr(batch.save_block(&block), "save_block");
+		{
+			let mut t = self.txhs.write();
+			perr(
+				grin_chain::txhashset::extending(&mut self.header_pmmr, &mut t, &mut batch, |ext, batch| {
+					ext.extension.apply_block(&block, ext.header_extension, batch)
+				}),
+				"extending/apply_block",
+			);
+		}
+		let tip = Tip::from_header(&block.header);
+		perr(batch.save_body_head(&tip), "body head");
+		perr(batch.save_header_head(&tip), "header head");
+		perr(batch.commit(), "commit");
+		self.headers.push(block.header.clone());
+	}
+}
+
+fn pruned_mode(out: &mut Out, rng: &mut Rng, thorough: bool) {
+	let work = std::env::var("VERIF_WORK").expect("VERIF_WORK not set");
+	let mut st = Stats::default();
+	let kit = Kit::new(&format!("{}/deseg_pruned_kit", work));
+	let t0 = Instant::now();
+	// (outputs at the archive header, spent aligned chunks, compact?)
+	let cases: Vec<(u64, Vec<u64>, bool)> = if thorough {
+		vec![(1030, vec![0], true), (2100, vec![0], true), (2100, vec![1], true), (3100, vec![1], true), (3300, vec![0, 1], true), (3300, vec![1, 2], true), (4200, vec![1, 2], true), (2100, vec![1], false), (4200, vec![0, 2], true)]
+	} else {
+		vec![(1030, vec![0], true), (2100, vec![1], true), (3300, vec![0, 1], true), (2100, vec![1], false)]
+	};
+	let mut rcv = 0u64;
+	for (ci, (n_target, zero_chunks, compact)) in cases.iter().enumerate() {
+		let dir = format!("{}/deseg_pruned_src_{}", work, ci);
+		// the source is built on its own thread under the Mainnet parameters (LMDB allocation chunk and
+		// block weight for blocks of hundreds of outputs); chain parameters are thread-local
+		let g_out = kit.genesis.outputs()[0].clone();
+		let seed = rng.next();
+		let (n_target_c, zero_chunks_c, compact_c, dir_c) = (*n_target, zero_chunks.clone(), *compact, dir.clone());
+		let built = std::thread::spawn(move || {
+			grin_core::global::set_local_chain_type(grin_core::global::ChainTypes::Mainnet);
+			let mut rng = Rng::new(seed);
+			let rng = &mut rng;
+			let n_target = &n_target_c;
+			let zero_chunks = &zero_chunks_c;
+			let compact = &compact_c;
+			let mut compacted = false;
+			let mut ps = PSrc::new(&dir_c);
+			// growth: leaf 0 is the receiver's genesis output
+			ps.block(Some(g_out), rng.range(300, 600), &[]);
+			let grow_to = *n_target - 40;
+			while ps.n < grow_to {
+				let k = rng.range(300, 600).min(grow_to - ps.n);
+				// some scattered spends outside the runs
+				let cands: Vec<u64> = ps.unspent.iter().cloned().filter(|x| *x + 1 < ps.n && !zero_chunks.contains(&(*x / 1024)) && rng.chance(1, 12)).collect();
+				ps.block(None, k.max(1), &cands);
+			}
+			// the spending blocks: every output of the aligned runs
+			for c in zero_chunks {
+				let run: Vec<u64> = ps.unspent.range(c * 1024..(c + 1) * 1024).cloned().collect();
+				ps.block(None, rng.range(1, 4), &run);
+			}
+			let spend_height = ps.headers.len() - 1;
+			// blocks above the horizon, a few spends in them (kept by compaction: inside the horizon)
+			while ps.n < *n_target {
+				let k = rng.range(2, 9).min(*n_target - ps.n);
+				let cands: Vec<u64> = ps.unspent.iter().cloned().filter(|x| *x + 1 < ps.n && !zero_chunks.contains(&(*x / 1024)) && rng.chance(1, 200)).collect();
+				ps.block(None, k.max(1), &cands);
+			}
+			if *compact {
+				// horizon: the block right after the spending blocks (or that block itself)
+				let hh = ps.headers[(spend_height + rng.below(2) as usize).min(ps.headers.len() - 1)].clone();
+				let store = ps._store.clone();
+				let batch = perr(store.batch(), "batch");
+				perr(ps.txhs.write().compact(&hh, &batch), "TxHashSet::compact");
+				compacted = true;
+			}
+			(ps, compacted)
+		})
+		.join();
+		let (mut ps, compacted) = match built {
+			Ok(x) => x,
+			Err(_) => {
+				eprintln!("deseg pruned: building the source panicked");
+				std::process::exit(3);
+			}
+		};
+		if compacted {
+			st.inc("sources-compacted");
+		}
+		// the archive header: the head, committing to the source's roots and to a synthetic kernel MMR
+		let n_ker = rng.range(2, 40);
+		let ks = Synth::new(&kit, rng, 1, n_ker, "all");
+		let (roots, acc, src_peaks) = {
+			let mut t = ps.txhs.write();
+			perr(
+				grin_chain::txhashset::extending_readonly(&mut ps.header_pmmr, &mut t, |ext, _b| {
+					Ok((ext.extension.roots()?, ext.extension.bitmap_accumulator(), ext.extension.output_readonly_pmmr().peaks()))
+				}),
+				"roots",
+			)
+		};
+		// which side is the defining construction: the output MMR recomputed from the element list alone
+		{
+			let elems: Vec<OutputIdentifier> = (0..ps.n as usize).map(|i| OutputIdentifier::new(ps.feats[i], &ps.commits[i])).collect();
+			let mut vb = VecBackend::<OutputIdentifier>::new();
+			let sz = push_all(&mut vb, &elems);
+			let rr = ReadonlyPMMR::at(&vb, sz).root().unwrap();
+			st.inc(if rr == roots.output_roots.pmmr_root { "source-output-root:equals-the-MMR-of-its-element-list" } else { "source-output-root:DIFFERS-from-the-MMR-of-its-element-list" });
+		}
+		let mut ah = ps.headers.last().unwrap().clone();
+		ah.height = 100000 + ci as u64;
+		ah.kernel_mmr_size = ks.ker_size;
+		ah.kernel_root = ks.roots.3;
+		ah.range_proof_root = roots.rproof_root;
+		ah.output_root = (roots.output_roots.pmmr_root, roots.output_roots.bitmap_root).hash_with_index(ah.output_mmr_size);
+		let segmenter = Segmenter::new(ps.txhs.clone(), Arc::new(acc), ah.clone());
+		let n_out = ps.n;
+		let unspent_v: Vec<u64> = ps.unspent.iter().cloned().collect();
+		let zero_mid = zero_chunks.iter().any(|c| ps.unspent.iter().any(|x| *x / 1024 > *c));
+		let hsets: Vec<(u8, u8, u8, u8)> = if thorough { vec![(0, 7, 8, 3), (1, 9, 7, 2), (9, 11, 11, 11), (0, 10, 10, 4)] } else { vec![(0, 7, 8, 3), (9, 11, 11, 11)] };
+		for hs in hsets {
+			rcv += 1;
+			let heights = [hs.0, hs.1, hs.2, hs.3];
+			let plan = random_plan(rng, rcv);
+			let tag = format!("pruned outputs={} kernels={} spent-chunks={:?} compacted={} unspent={} heights={:?} plan={:?}", n_out, n_ker, zero_chunks, compact, unspent_v.len(), heights, plan);
+			let sg = &segmenter;
+			let kss = &ks;
+			let ui = &ps.unspent;
+			let out_size = ah.output_mmr_size;
+			let fetch = move |t: usize, id: SegmentIdentifier| -> Option<Seg> {
+				let r = catch(AssertUnwindSafe(|| match t {
+					0 => sg.bitmap_segment(id).ok().map(|(s, r)| Seg::Bitmap(s, r)),
+					1 => sg.output_segment(id).ok().map(|(s, r)| Seg::Output(s, r)),
+					2 => sg.rangeproof_segment(id).ok().map(Seg::Range),
+					_ => Segment::<TxKernel>::from_pmmr(id, &ReadonlyPMMR::at(&kss.ker_be, kss.ker_size), false).ok().map(Seg::Kernel),
+				}));
+				r.ok().flatten()
+			};
+			let req = move |pos0: u64| -> bool {
+				let i = pmmr::n_leaves(pos0 + 1) - 1;
+				ui.contains(&i) || ui.contains(&(i ^ 1)) || pos0 + 1 == out_size
+			};
+			let src = Src {
+				fetch: Box::new(fetch),
+				leaves: [(n_out + 1023) / 1024, n_out, n_out, n_ker],
+				req_out: Box::new(req),
+				roots: Some((roots.output_roots.pmmr_root, roots.output_roots.bitmap_root, roots.rproof_root, ks.roots.3)),
+				unspent: Some(unspent_v.clone()),
+				out_peaks: Some(src_peaks.clone()),
+			};
+			// how much the serving side really left out
+			if let Some(Seg::Output(s, _)) = (src.fetch)(1, SegmentIdentifier { height: heights[1], idx: 0 }) {
+				let (hp, lp) = positions_t(&s);
+				st.add("first-output-segment:leaves", lp.len() as u64);
+				st.add("first-output-segment:hashes", hp.len() as u64);
+			}
+			let dest = Subject::new(&format!("{}/deseg_pruned_dst_{}", work, rcv), &kit.genesis);
+			let ok = run_receiver(out, &mut st, rng, &tag, &dest, &ah, heights, &src, &plan, false);
+			if ok && zero_mid {
+				st.inc("receivers-complete:source-with-compacted-all-zero-chunk-before-unspent-outputs");
+			}
+			drop(dest);
+			let _ = std::fs::remove_dir_all(format!("{}/deseg_pruned_dst_{}", work, rcv));
+		}
+		drop(segmenter);
+		drop(ps);
+		let _ = std::fs::remove_dir_all(&dir);
+	}
+	st.add("receivers", rcv);
+	st.add("millis", t0.elapsed().as_millis() as u64);
+	st.dump(out, "deseg pruned");
+}
+
 fn main() {
 	quiet_panics();
 	gvharness::chainkit::setup_globals();
@@ -1194,6 +1490,7 @@ fn main() {
 		"synth" => synth_mode(&mut out, &mut rng, thorough),
 		"chain" => chain_mode(&mut out, &mut rng, thorough),
 		"probe" => probe_mode(&mut out, &mut rng, thorough),
+		"pruned" => pruned_mode(&mut out, &mut rng, thorough),
 		_ => {
 			eprintln!("usage: deseg synth|chain|probe");
 			std::process::exit(2);
